@@ -33,7 +33,8 @@ def _psy():
 REFUSALS = [("Return statements and therefore cannot be inlined", "earlyReturn"), ("static (Fortran SAVE)", "static"), ("from its parent container", "container"),
             ("cannot be found in any of the containers", "container"),
             ("number of arguments", "nargs"), ("is a loop variable but the actual argument", "loopVarActual"), ("is not a Reference or a Literal", "arrayExpr"),
-            ("reshapes an argument", "rank"), ("non-unit stride", "stride")]
+            ("reshapes an argument", "rank"), ("non-unit stride", "stride"),
+            ("corresponding to an array formal argument", "unknownType")]
 
 
 def refusal_class(msg):
@@ -162,9 +163,15 @@ def export_idxrefs(call, callee, names):
     syms = [a.symbol for _, a in bound.values()]
     if len({id(s) for s in syms}) != len(syms):
         return None                               # two formals on one array: walk order would be ambiguous
+    def inside(ref, b):
+        while ref is not None:
+            if ref is b:
+                return True
+            ref = ref.parent
+        return False
     for a in call.arguments:                      # the arrays must not be mentioned anywhere else in the call
-        for ref in a.walk(N.Reference):
-            if any(ref.symbol is s for s in syms) and not any(ref is b for _, b in bound.values()):
+        for ref in a.walk(N.Reference):           # (LBOUND(a,1) inside the bounds of `a(:)` itself is fine)
+            if any(ref.symbol is s for s in syms) and not any(inside(ref, b) for _, b in bound.values()):
                 return None
     out = []
     for ref in callee.walk(N.Reference):
@@ -185,6 +192,46 @@ def export_idxrefs(call, callee, names):
     return out
 
 
+def export_checkidx(call, callee, names):
+    """[(rank of the formal, AIdx list)] for the array formals, in argument order; None unless EVERY array formal is
+    bound to an `a(...)` actual with at least one section (then the array-argument checks of validate are exactly
+    `checkIdx` on these)"""
+    _, _, N, _, _ = _psy()
+    formals = callee.symbol_table.argument_list
+    if len(formals) != len(call.arguments):
+        return None
+    out = []
+    for f, a in zip(formals, call.arguments):
+        if not is_array(f):
+            continue
+        if not (isinstance(a, N.ArrayReference) and is_array(a.symbol) and any(isinstance(i, N.Range) for i in a.indices)):
+            return None
+        if any(r.ancestor(N.Reference) is not a for r in a.walk(N.Range)):
+            return None                          # range in an indirect access: not modelled
+        out.append([len(f.datatype.shape), export_aidx(a, names)])
+    return out or None
+
+
+def whole_explicit(call, callee):
+    """classifier of known finding C07-explicit-shape-whole-array: the callee mentions, WITHOUT indices, an array formal
+    declared with an explicit upper bound, and the actual bound to it is an array / array section"""
+    from psyclone.psyir.symbols import ArrayType
+    _, _, N, _, _ = _psy()
+    formals = callee.symbol_table.argument_list
+    if len(formals) != len(call.arguments):
+        return False
+    for f, a in zip(formals, call.arguments):
+        if not (is_array(f) and isinstance(a, N.Reference) and is_array(a.symbol)):
+            continue
+        if isinstance(a, N.ArrayReference) and not any(isinstance(i, N.Range) for i in a.indices):
+            continue
+        if not any(isinstance(d, ArrayType.ArrayBounds) and isinstance(d.upper, N.Node) for d in f.datatype.shape):
+            continue
+        if any(type(r) is N.Reference and r.symbol is f for r in callee.walk(N.Reference)):
+            return True
+    return False
+
+
 def real_idxrefs(nodes, refs):
     """index lists of the references to the actual arrays in the inlined statements, in walk order"""
     _, _, N, _, _ = _psy()
@@ -192,7 +239,7 @@ def real_idxrefs(nodes, refs):
     out = []
     for node in nodes:
         for ref in node.walk(N.Reference):
-            if id(ref.symbol) in syms:
+            if id(ref.symbol) in syms and not isinstance(ref.parent, N.IntrinsicCall):    # not the `a` of LBOUND(a, 1)
                 out.append(ref)
     return out
 
@@ -305,6 +352,11 @@ def real_inline(src):
         res["idxrefs"] = export_idxrefs(call, callee, names)
     except minif.Unsupported:
         res["idxrefs"] = None
+    res["whole_explicit"] = whole_explicit(call, callee)
+    try:
+        res["checkidx"] = export_checkidx(call, callee, names)
+    except minif.Unsupported:
+        res["checkidx"] = None
     res["base_ids"] = set(names.ids.values())
     parent, pos, nbefore = site.parent, site.position, len(site.parent.children)
     try:
@@ -611,7 +663,29 @@ def run(chk):
                 if e["ks"] is not None and e.get("real") is not None:
                     iidx.append((k, e))
                     ilines.append(sx(["idxmap", e["aidx"], e["los"], e["ks"]]))
-    iout = common.driver("C07", ilines) if ilines else []
+    cidx = [(k, fr, ai) for k, r in enumerate(results) if r.get("checkidx") and r.get("status") in ("ok", "refuse")
+            for fr, ai in r["checkidx"]]
+    iout = common.driver("C07", ilines + [sx(["checkidx", fr, ai]) for _, fr, ai in cidx]) if ilines or cidx else []
+    cout, iout = iout[len(ilines):], iout[:len(ilines)]
+    chk_model = {}
+    for (k, fr, ai), mo in zip(cidx, cout):
+        if not mo.startswith("("):
+            raise common.Infra("C07 driver: " + mo)
+        m = parse_sx(mo)
+        chk_model.setdefault(k, "ok")
+        if chk_model[k] == "ok" and m[0] == "refuse":
+            chk_model[k] = m[1]                      # the first refused argument decides
+    chk_bad = {}
+    for k, mv in chk_model.items():
+        r = results[k]
+        if r["status"] == "ok":
+            rv = "ok"
+        elif r["cls"] in ("unknownType", "rank", "stride"):
+            rv = r["cls"]
+        else:
+            continue                                  # refused by an earlier check of validate
+        if rv != mv:
+            chk_bad[k] = (mv, rv)
     idx_bad = {}
     for (k, e), mo in zip(iidx, iout):
         if not mo.startswith("("):
@@ -627,7 +701,7 @@ def run(chk):
     chk.cov["phase_s"]["gfortran"] = round(time.time() - t0, 1)
     dist = {"accepted": 0, "refused": 0, "unsupported": 0, "invalid_original": 0, "in_proved_domain": 0,
             "index_map_refs": len(iidx), "index_map_cases": len({k for k, _ in iidx}),
-            "index_map_rank3_refs": len([1 for _, e in iidx if len(e["aidx"]) == 3]),
+            "index_map_rank3_refs": len([1 for _, e in iidx if len(e["aidx"]) == 3]), "checkidx_cases": len(chk_model),
             "known_class": {}, "known_class_failing": {}, "refusal": {}, "kind": {}, "gfortran_pairs": 0}
     model = {}
     for j, k in enumerate(idx):
@@ -641,12 +715,21 @@ def run(chk):
             e, mo = idx_bad[k]
             chk.correspondence_broken("index map: _update_actual_indices differs from the model (updateIdx) on x("
                                       + sx(e["ks"]) + ") bound to actual " + sx(e["aidx"]), {"src": src}, mo, sx(e["real"]))
+        if k in chk_bad:
+            chk.correspondence_broken("validate (array-section argument checks, model checkIdx) differs from the real code",
+                                      {"src": src}, chk_bad[k][0], chk_bad[k][1])
         if k not in model:
             dist["unsupported"] += 1
-            chk.case({"src": src}, nontrivial=(k in {kk for kk, _ in iidx}), agreed=k not in idx_bad)
+            chk.case({"src": src}, nontrivial=(k in {kk for kk, _ in iidx}), agreed=k not in idx_bad and k not in chk_bad)
             if verdict:
-                chk.violation({"kind": "failing-input", "src": src, "observed": verdict[0], "expected": verdict[1],
-                               "note": "outside the modelled subset: " + r.get("unsupported", "")})
+                payload = {"kind": "failing-input", "src": src, "observed": verdict[0], "expected": verdict[1],
+                           "note": "outside the modelled subset: " + r.get("unsupported", "")}
+                if r.get("whole_explicit") and r.get("status") == "ok" and r.get("out_src") and r.get("gf_inl"):
+                    c = "C07-explicit-shape-whole-array"     # known class (decided on the ORIGINAL program, see whole_explicit)
+                    dist["known_class_failing"][c] = dist["known_class_failing"].get(c, 0) + 1
+                    failing_known.setdefault(c, payload)
+                else:
+                    chk.violation(payload)
             continue
         mo, mrun = model[k]
         if not mo.startswith("("):
